@@ -31,10 +31,12 @@ TWO_PI = 2 * PI
 
 
 def _imp():
+    """PosVel and the gravitational constant of the *default* source of constant.txt — deliberately not `constant.GM`
+    read at call time: outside a `use_source` block every conversion has to use this value"""
     from midgard.data.position import PosVel
     from midgard.math.constant import constant
 
-    return PosVel, float(constant.GM)
+    return PosVel, float(constant.get("GM", source="default"))
 
 
 def translate():
@@ -105,7 +107,81 @@ def run(ctx: Ctx):
             one_case(ctx, case, shape, els)
         except Exception as e:
             gviolate(ctx, f"raises:{type(e).__name__}", f"kepler/trs conversion raised {type(e).__name__}: {e}", case)
+        if gi % 29 == 0:
+            check_gm_sources(ctx)
+    check_gm_sources(ctx)
     ctx.traces = ctx.evaluations
+
+
+def check_gm_sources(ctx):
+    """histories around `constant.use_source`: inside a block the conversions use that source's GM; after the block —
+    left normally or by an exception raised inside it and caught by the caller — they use the default GM again"""
+    from midgard.dev import exceptions
+    from midgard.math.constant import constant
+
+    PosVel, GM = _imp()
+    drv, rng = ctx.driver, ctx.rng
+    sources = []
+    for src in sorted(constant._constants["GM"].as_dict()):
+        if src.startswith("__") or src == "default":
+            continue
+        try:
+            sources.append((src, float(constant.get("GM", source=src))))
+        except exceptions.UnknownConstantError:
+            continue
+    src, gm_src = rng.choice(sources)
+    k = ctx.__dict__.get("_gm_hist", 0)
+    ctx.__dict__["_gm_hist"] = k + 1
+    how = ["unknown-constant-inside", "exception-inside", "normal-exit"][k % 3]
+    gm_history(ctx, src, gm_src, how, gen_elements(rng))
+
+
+def gm_history(ctx, src, gm_src, how, el):
+    from midgard.dev import exceptions
+    from midgard.math.constant import constant
+
+    PosVel, GM = _imp()
+    drv = ctx.driver
+    case = {"fn": "use_source history", "source": src, "GM_source": gm_src, "GM_default": GM, "leave_block_by": how, "elements": el}
+    ctx.case(case, nontrivial=True)
+    ctx.count(f"use_source:{how}")
+    state = np.asarray(PosVel(np.array(el), "kepler").trs, dtype=float)
+    inside = None
+    try:
+        with constant.use_source(src):
+            inside = np.asarray(PosVel(state.copy(), "trs").kepler, dtype=float)
+            if how == "unknown-constant-inside":
+                # a constant this source does not define: raises UnknownConstantError inside the block
+                missing = [c for c in constant._constants.section_names if src not in constant._constants[c].as_dict()]
+                getattr(constant, missing[0]) if missing else (_ for _ in ()).throw(exceptions.UnknownConstantError("none missing"))
+            elif how == "exception-inside":
+                raise ZeroDivisionError("raised by the caller inside the block")
+    except (exceptions.UnknownConstantError, ZeroDivisionError):
+        pass
+    after_source = constant.source
+    after = np.asarray(PosVel(state.copy(), "trs").kepler, dtype=float)
+    r, v = state[:3], state[3:]
+    rn, vn = float(np.linalg.norm(r)), float(np.linalg.norm(v))
+
+    def vis_viva(gm):
+        return 1.0 / (2.0 / rn - vn * vn / gm)
+
+    # correspondence: the model run with the GM that applies
+    m_in = floats(drv.ask1(f"c07 f trs2kepler {fline(gm_src, *state)}"))
+    m_out = floats(drv.ask1(f"c07 f trs2kepler {fline(GM, *state)}"))
+    if inside is not None and abs(inside[0] - m_in[0]) > 1e-12 * m_in[0]:
+        gdisagree(ctx, "trs2kepler inside use_source (Float model with that source's GM)", case, m_in, inside.tolist())
+    if abs(after[0] - m_out[0]) > 1e-12 * m_out[0] or abs(after[1] - m_out[1]) > 1e-13 / el[1]:
+        gdisagree(ctx, "trs2kepler after a use_source block (Float model with the default GM)", case, m_out, after.tolist())
+    # oracle
+    if inside is not None and abs(inside[0] - vis_viva(gm_src)) > 1e-12 * inside[0]:
+        gviolate(ctx, "use_source:GM-inside-block", f"inside use_source({src!r}) a = {inside[0]!r} but vis-viva with that source's GM gives {vis_viva(gm_src)!r}", case)
+    if after_source != "default":
+        gviolate(ctx, "use_source:source-not-restored", f"after a use_source({src!r}) block left by {how} constant.source is {after_source!r}", case)
+    if abs(after[0] - vis_viva(GM)) > 1e-12 * after[0]:
+        gviolate(ctx, "use_source:GM-after-block", f"after a use_source({src!r}) block left by {how}, a = {after[0]!r} but the vis-viva semi-major axis with the default GM {GM!r} is {vis_viva(GM)!r}", case)
+    if after_source != "default":
+        constant._source = "default"  # keep the remaining cases (and their replays) independent of this history
 
 
 def one_case(ctx, case, shape, els):
@@ -243,11 +319,14 @@ def replay(payload):
     print(json.dumps(c, indent=1, default=str)[:2500])
     print("key:", payload.get("key"), "| what:", payload.get("what"))
     ctx = Ctx("C07", "quick", int(payload.get("seed", 0) or 0))
-    if c.get("fn") != "kepler<->trs":
+    if c.get("fn") not in ("kepler<->trs", "use_source history"):
         print("no dedicated replay for this kind of case")
         return 0
     try:
-        one_case(ctx, c, c["shape"], c["elements"])
+        if c["fn"] == "use_source history":
+            gm_history(ctx, c["source"], c["GM_source"], c["leave_block_by"], c["elements"])
+        else:
+            one_case(ctx, c, c["shape"], c["elements"])
     except Exception as e:
         print("raised", type(e).__name__, e)
         return 1
